@@ -2,6 +2,7 @@ package an
 
 import (
 	"go/token"
+	"go/types"
 	"math"
 
 	"golang.org/x/tools/go/ssa"
@@ -814,10 +815,28 @@ func (h *MayHeld) At(at ssa.Instruction) map[string]bool {
 // LenSign decodes a fact comparing len(x) with a constant into what it says
 // about the length: zero (len(x) == 0) or nonzero (len(x) > 0). It knows that a
 // length is never negative, so `len(x) > 0`, `len(x) != 0`, `!(len(x) == 0)`,
-// `len(x) >= 1` all mean nonzero, and the complements mean zero.
+// `len(x) >= 1` all mean nonzero, and the complements mean zero. For a string x
+// the comparison with the empty string says the same thing about its length
+// (`x != ""` and `x > ""` are len(x) > 0; `x == ""` and `x <= ""` are
+// len(x) == 0): it is decoded as the fact about len(x), with x itself reported.
 func LenSign(f Fact) (x ssa.Value, zero, nonzero bool) {
 	r, ok := AsRel(f)
 	if !ok {
+		return nil, false, false
+	}
+	if s, isC := ConstString(r.X); isC && s == "" {
+		r = r.Flip()
+	}
+	if s, isC := ConstString(r.Y); isC && s == "" {
+		_, alsoC := r.X.(*ssa.Const)
+		if bt, isB := r.X.Type().Underlying().(*types.Basic); isB && bt.Info()&types.IsString != 0 && !alsoC {
+			switch r.Op {
+			case token.NEQ, token.GTR:
+				return r.X, false, true
+			case token.EQL, token.LEQ:
+				return r.X, true, false
+			}
+		}
 		return nil, false, false
 	}
 	if _, isLen := LenArg(r.X); !isLen {
